@@ -15,20 +15,30 @@ use vcore::util::{decode, product};
 use vcore::{Cfg, Check, Cx, Finding, Meta, SUB_SETUP, Tier, Value, Violation, json};
 
 mod capture;
+mod clidirs;
 mod clipart;
 mod pkgs;
 mod parta;
 
-use pkgs::{FLAVOURS, SHAPES, WIDE_FLAVOURS};
+use pkgs::{FIRST_PATHY_SHAPE, FLAVOURS, SHAPES, WIDE_FLAVOURS};
 
 const CHUNK: u64 = 1296;
 /// flavours enumerated with four blocks in the quick tier (all nine up to
 /// three blocks; thorough: all nine up to four blocks)
 const QUICK_K4_FLAVOURS: [usize; 4] = [1, 3, 5, 6];
+/// flavours enumerated with six blocks (thorough)
+const K6_FLAVOURS: [usize; 2] = [3, 5];
+/// flavours for the module trees with colliding names: same test names in
+/// every module (per position / all `foo`), with and without a same-named
+/// filtermap, decoys
+const PATHY_FLAVOURS_QUICK: [usize; 2] = [3, 5];
+const PATHY_FLAVOURS_THOROUGH: [usize; 5] = [2, 3, 4, 5, 7];
+const PATHY_FLAVOUR_WIDE: usize = 3;
 
 #[derive(Clone, Debug)]
 enum Unit {
     Cli,
+    CliDirs,
     Callers,
     Pkgs { shape: usize, k: usize, flavour: usize, from: u64, to: u64 },
 }
@@ -39,18 +49,39 @@ fn radices(shape: usize, k: usize) -> Vec<u64> {
     r
 }
 
+/// Which (module tree, k, flavour) triples a tier enumerates (each of them
+/// with all placements and all outcome vectors).
+fn enumerated(tier: Tier, shape: usize, k: usize, flavour: usize) -> bool {
+    if shape >= FIRST_PATHY_SHAPE {
+        // trees with colliding module names: the flavours in which the tests
+        // of different modules have the same names
+        return match (tier, k) {
+            (Tier::Quick, 0..=3) => PATHY_FLAVOURS_QUICK.contains(&flavour),
+            // four blocks: only the trees with sub-modules called `pkg`
+            (Tier::Quick, _) => flavour == PATHY_FLAVOUR_WIDE && shape <= FIRST_PATHY_SHAPE + 1,
+            (Tier::Thorough, 0..=4) => PATHY_FLAVOURS_THOROUGH.contains(&flavour),
+            (Tier::Thorough, 5) => flavour == PATHY_FLAVOUR_WIDE,
+            // six blocks: only the trees with sub-modules called `pkg`
+            (Tier::Thorough, _) => flavour == PATHY_FLAVOUR_WIDE && shape <= FIRST_PATHY_SHAPE + 1,
+        };
+    }
+    match k {
+        0..=3 => true,
+        4 => tier == Tier::Thorough || QUICK_K4_FLAVOURS.contains(&flavour),
+        5 => WIDE_FLAVOURS.contains(&flavour),
+        _ => K6_FLAVOURS.contains(&flavour),
+    }
+}
+
 fn unit_table(tier: Tier) -> Vec<Unit> {
     // the process launches take longest and run in one worker: start them first
-    let mut v = vec![Unit::Cli, Unit::Callers];
+    let mut v = vec![Unit::Cli, Unit::CliDirs, Unit::Callers];
     let kmax = tier.pick(4, 6);
     let mut seen_k0 = std::collections::HashSet::new();
     for k in 0..=kmax {
         for shape in 0..SHAPES.len() {
             for flavour in 0..FLAVOURS.len() {
-                if k >= 5 && !WIDE_FLAVOURS.contains(&flavour) {
-                    continue;
-                }
-                if k == 4 && tier == Tier::Quick && !QUICK_K4_FLAVOURS.contains(&flavour) {
+                if !enumerated(tier, shape, k, flavour) {
                     continue;
                 }
                 if k == 0 {
@@ -93,6 +124,7 @@ impl Check for C19 {
     fn run_unit(&self, unit: usize, cx: &mut Cx) {
         match unit_table(cx.cfg.tier)[unit].clone() {
             Unit::Cli => clipart::run(cx),
+            Unit::CliDirs => clidirs::run(cx),
             Unit::Callers => {
                 if !cx.case(SUB_SETUP) {
                     return;
@@ -126,6 +158,7 @@ impl Check for C19 {
     fn describe(&self, cfg: &Cfg, unit: usize, sub: u64) -> Value {
         match unit_table(cfg.tier)[unit].clone() {
             Unit::Cli => clipart::describe(sub),
+            Unit::CliDirs => clidirs::describe(sub),
             Unit::Callers => {
                 if sub == SUB_SETUP {
                     json!({"kind": "caller_setup"})
@@ -149,7 +182,7 @@ impl Check for C19 {
         let kmax = cfg.tier.pick(4, 6);
         Meta {
             rule: format!(
-                "Part A: every package = (module tree of 1-3 modules, k <= {kmax} test blocks, module of every block, accept/reject of every block, flavour); all M^k placements x 2^k outcome vectors x {} flavours (k >= 5: flavours {:?}; quick tier, k = 4: flavours {:?}); compiled twice, run_tests twice per compilation, every TestCase of get_tests run once, get_function with two signatures for every test/function name. Callers: every (place, call form, kind of same-named function, outcome). Part B: every (sub-command form, file kind) pair, one process launch each. Non-trivial: a package with at least one accepting and one rejecting block; every caller case; a launch that must fail or that must run an entry function",
+                "Part A: every package = (module tree of 1-3 modules, k <= {kmax} test blocks, module of every block, accept/reject of every block, flavour); all M^k placements x 2^k outcome vectors x {} flavours (trees 0-3: k = 5 flavours {:?}, k = 6 flavours {K6_FLAVOURS:?}; quick tier, k = 4: flavours {:?}; trees 4-9, whose module names collide with the path machinery (pkg.pkg, pkg.pkg.pkg, test, super_, std, dep, a/ab, a_b/b): quick flavours {PATHY_FLAVOURS_QUICK:?} for k <= 3 and, trees 4-5 only, flavour {PATHY_FLAVOUR_WIDE} for k = 4, thorough flavours {PATHY_FLAVOURS_THOROUGH:?} for k <= 4, flavour {PATHY_FLAVOUR_WIDE} for k = 5 and, trees 4-5 only, k = 6); compiled twice, run_tests twice per compilation, every TestCase of get_tests run once, get_function with two signatures for every test/function name. Callers: every (place, call form, kind of same-named function, outcome). Part B: every (sub-command form, file kind) pair, one process launch each; second unit: three directory packages with colliding sub-module names (pkg/mod.roto and pkg/pkg/mod.roto; test, super_, std, dep; a, ab, a_b, a_b.b), a `test foo` in every module, every accept/reject vector over the modules under `roto test <dir>` (check and run on the all-reject and all-accept vectors). Non-trivial: a package with at least one accepting and one rejecting block; every caller case; a launch that must fail or that must run an entry function",
                 FLAVOURS.len(),
                 WIDE_FLAVOURS,
                 QUICK_K4_FLAVOURS
@@ -169,6 +202,7 @@ impl Check for C19 {
                 "caller_cases": product(&pkgs::caller_radices()),
                 "cli_forms": clipart::FORMS.iter().map(|(c, a)| format!("{c} <file> {}", a.join(" "))).collect::<Vec<_>>(),
                 "cli_file_kinds": clipart::kinds().iter().map(|k| k.name).collect::<Vec<_>>(),
+                "cli_dir_trees": clidirs::TREES.iter().map(|(n, m)| json!({"name": n, "modules": m.iter().map(|x| x.0).collect::<Vec<_>>()})).collect::<Vec<_>>(),
             }),
             states_are: "distinct packages (scripts) / caller scripts / (sub-command form, file kind) pairs".into(),
             transitions_are: "compilations, run_tests calls, TestCase::run calls, get_function probes and process launches on the real code".into(),
